@@ -611,7 +611,9 @@ func (c *compiler) compile(tok *token) []instruction {
 			}
 			ins := instruction{Code: code, A: reg(len(args)), B: reg(ellipsis)}
 			if code == codeCopy {
-				ins.C = reg(tok.Tokens[callReturns].Int()) // n := copy(a, b): the number of elements copied is wanted
+				if tok.Tokens[callReturns].Int() != 0 { // n := copy(a, b), return copy(a, b): the number of elements copied is wanted
+					ins.C = 1
+				}
 			}
 			res = append(res, ins)
 		} else {
